@@ -512,7 +512,8 @@ type Face struct {
 
 // NewFace wraps [font] and initializes glyph caches.
 func NewFace(font *Font) *Face {
-	return &Face{Font: font, extentsCache: make(extentsCache, font.nGlyphs)}
+	// the extents cache is allocated by the first call to [Face.GlyphExtents]
+	return &Face{Font: font}
 }
 
 // Ppem returns the horizontal and vertical pixels-per-em (ppem), used to select bitmap sizes.
